@@ -696,6 +696,50 @@ func updatesOf(fd *ast.FuncDecl, name string) []string {
 	return out
 }
 
+// rangeBody renders the top-level statements of the body of the first `for ... range <over>` loop in fd: assignments and calls
+// as their expressions, an if statement as "if <cond> { continue }" / "if <cond> {...}".
+func rangeBody(fd *ast.FuncDecl, over string) ([]string, bool) {
+	if fd == nil {
+		return nil, false
+	}
+	var out []string
+	found := false
+	ast.Inspect(fd.Body, func(n ast.Node) bool {
+		rs, ok := n.(*ast.RangeStmt)
+		if !ok || found || types.ExprString(rs.X) != over {
+			return true
+		}
+		found = true
+		for _, st := range rs.Body.List {
+			switch x := st.(type) {
+			case *ast.ExprStmt:
+				out = append(out, types.ExprString(x.X))
+			case *ast.AssignStmt:
+				var l, r []string
+				for _, e := range x.Lhs {
+					l = append(l, types.ExprString(e))
+				}
+				for _, e := range x.Rhs {
+					r = append(r, types.ExprString(e))
+				}
+				out = append(out, strings.Join(l, ", ")+" "+x.Tok.String()+" "+strings.Join(r, ", "))
+			case *ast.IfStmt:
+				if len(x.Body.List) == 1 {
+					if bs, ok := x.Body.List[0].(*ast.BranchStmt); ok && bs.Tok == token.CONTINUE && x.Else == nil {
+						out = append(out, "if "+types.ExprString(x.Cond)+" { continue }")
+						continue
+					}
+				}
+				out = append(out, "if "+types.ExprString(x.Cond)+" {...}")
+			default:
+				out = append(out, fmt.Sprintf("%T", st))
+			}
+		}
+		return false
+	})
+	return out, found
+}
+
 // goStmts lists "<func>: go <callee>" for every go statement of the package ("go func" for a function literal).
 func goStmts(p *pkg) []string {
 	fns := p.allFuncs()
@@ -1271,6 +1315,12 @@ func main() {
 				v, ok := stmtsBeforeRange(sv, "resp.Trailer")
 				e.strs("frontendBeforeTrailers", v, ok, []string{"_, err := io.Copy(w, resp.Body)", "resp.Body.Close()", "if err != nil { ...; return }"},
 					"server proxy.ServeHTTP: what happens between the relay of the body and the reading of resp.Trailer (the trailers are read only when the relay reached the end of the body: if the client went away the agent may still be uploading, and net/http fills resp.Trailer in from that other goroutine)")
+			}
+			{
+				sv := s.methodDecl("proxy", "ServeHTTP")
+				v, ok := rangeBody(sv, "resp.Header")
+				e.strs("frontendHeaderRelay", v, ok, []string{"if isHopByHopHeader(name) { continue }", "w.Header()[name] = vals"},
+					"server proxy.ServeHTTP: the loop that relays the header of the uploaded response to the client (every field that is not hop-by-hop, with ALL of its values: the slice is handed over as it is)")
 			}
 			e.strs("serverGoroutines", goStmts(s), true, nil, "server package: every goroutine started by the proxy's own code (none: whatever is written to a client's http.ResponseWriter is written by that client's own handler, before it returns)")
 		}
